@@ -218,6 +218,11 @@ def run_case(ctx, kind_, idx):
                     else:
                         d2 = float(wx[-1] - wx[-2]) * float(rng.choice([0.5, -0.5, 1e-9]))
                         g[-1] = g[-1] + (d2 if g[-1] + d2 > g[-2] else abs(d2))
+                    if g[0] == wx[0] and g[-1] == wx[-1]:      # the tiny offset vanished in rounding: use a visible one
+                        if c == "grid_first_point":
+                            g[0] = float(wx[0]) - 0.5 * float(wx[1] - wx[0])
+                        else:
+                            g[-1] = float(wx[-1]) + 0.5 * float(wx[-1] - wx[-2])
                     method = ["linear", "constant", "cubic", "spline"][int(rng.integers(0, 4))]
                     gg = g if rng.integers(0, 2) else [float(v) for v in g]
                     info.update({"grid_ends": [float(g[0]), float(g[-1])], "x_ends": [float(wx[0]), float(wx[-1])]})
